@@ -86,9 +86,15 @@ def run_case(case):
 
     swg = ":SwitchGDD=1" if (spec["crop"].get("overrides") or {}).get("SwitchGDD") == 1 else ""
 
+    from ..domain import CROP_INFO
+    thermal_derived = CROP_INFO[spec["crop"]["name"]]["CalendarType"] == 2 and not spec["crop"].get("harvest_date")
+
     def V(sig, msg):
         if swg and sig.startswith("C11:differs"):
             sig += swg   # the calendar-to-thermal conversion is written onto the user's Crop (see known findings)
+        elif thermal_derived and sig.startswith("C11:differs") and any("@window" in t for t in state["trace"]):
+            # thermal-time crop, harvest date derived by the model, and an earlier use of the same Crop for another window
+            sig += ":thermal-crop-derived-harvest-date-from-other-window"
         if not any(v["sig"] == sig for v in res["violations"]):
             res["violations"].append({"sig": sig, "msg": msg, "where": {}})
 
